@@ -258,6 +258,20 @@ class TupleV(V):
 
 
 @dataclass(eq=False)
+class AltV(V):
+    """One of several values, each under a condition (a strategy object / callable chosen by the options, a field assigned in
+    different branches).  Operations distribute over the alternatives."""
+
+    alts: list  # [(Formula, V)]
+
+
+@dataclass(eq=False)
+class SuperRef(V):
+    obj: V
+    after: ClassInfo
+
+
+@dataclass(eq=False)
 class DictV(V):
     """A dictionary: not modelled, but what is read from it carries the taint of what was stored into it."""
 
@@ -348,6 +362,8 @@ def key(v: V) -> str:
         return "{" + show(v.f) + "}"
     if isinstance(v, DictV):
         return v.text
+    if isinstance(v, AltV):
+        return "alt(" + "|".join(key(x) for _g, x in v.alts) + ")"
     if isinstance(v, Builtin):
         return v.name
     if isinstance(v, Fn):
@@ -369,6 +385,11 @@ def taint_of(v: V) -> frozenset:
         return out
     if isinstance(v, BoundAPI):
         return taint_of(v.recv)
+    if isinstance(v, AltV):
+        out = frozenset()
+        for _g, x in v.alts:
+            out |= taint_of(x)
+        return out
     if isinstance(v, MapV):
         return taint_of(v.fn) | taint_of(v.src)
     if isinstance(v, DictV):
@@ -383,6 +404,9 @@ def taint_of(v: V) -> frozenset:
 def maybe_none(v: V) -> "bool | None":
     if isinstance(v, NoneV):
         return True
+    if isinstance(v, AltV):
+        ms = [maybe_none(x) for _g, x in v.alts]
+        return True if any(m for m in ms) else (False if all(m is False for m in ms) else None)
     if isinstance(v, Unknown):
         return v.maybe_none
     return False
@@ -739,9 +763,70 @@ class Interp:
             fr.env = merged
         return disj([conj([c, ft1]), conj([nc, ft2])])
 
+    def sat(self, f: Formula) -> bool:
+        if f == FALSE:
+            return False
+        if f == TRUE:
+            return True
+        names = atoms_of(f)
+        if len(names) > MAX_ATOMS:
+            return True
+        return any(evaluate(f, env) for env in assignments(names))
+
+    def mk_alt(self, pairs: list) -> V:
+        flat: list = []
+        for g, v in pairs:
+            if isinstance(v, AltV):
+                flat += [(conj([g, h]), x) for h, x in v.alts]
+            else:
+                flat.append((g, v))
+        cur = self.guard()
+        out: list = []
+        for g, v in flat:
+            if g == FALSE or not self.sat(conj([cur, g])):
+                continue
+            for i, (h, x) in enumerate(out):
+                if x is v:
+                    out[i] = (disj([h, g]), x)
+                    break
+            else:
+                out.append((g, v))
+        if not out:
+            return Unknown("<no value>")
+        if len(out) == 1:
+            return out[0][1]
+        return AltV(out)
+
+    def live(self, v: V) -> list:
+        """The alternatives of a value that are possible under the current path condition."""
+        if not isinstance(v, AltV):
+            return [(TRUE, v)]
+        cur = self.guard()
+        out = [(g, x) for g, x in v.alts if self.sat(conj([cur, g]))]
+        return out or [(TRUE, Unknown("<no value>"))]
+
+    def distribute(self, v: V, fn: Callable[[V], V]) -> V:
+        alts = self.live(v)
+        if len(alts) == 1:
+            return fn(alts[0][1])
+        res = []
+        for g, x in alts:
+            self.frames.append(g)
+            try:
+                res.append((g, fn(x)))
+            finally:
+                self.frames.pop()
+        cur = res[-1][1]
+        for g, r in reversed(res[:-1]):
+            cur = self.join_ite(g, r, cur)
+        return cur
+
     def join_ite(self, c: Formula, v1: V, v2: V) -> V:
         if v1 is v2:
             return v1
+        if isinstance(v1, AltV) or isinstance(v2, AltV) or any(isinstance(x, (Fn, Obj, ClassRef, Opaque, BoundAPI, SuperRef, MapV, EnumV, DictV)) for x in (v1, v2)):
+            if not (isinstance(v1, Coll) or isinstance(v2, Coll)):
+                return self.mk_alt([(c, v1), (f_not(c), v2)])
         if isinstance(v1, Coll) or isinstance(v2, Coll):
             if isinstance(v1, (Coll, NoneV, TupleV)) and isinstance(v2, (Coll, NoneV, TupleV)):
                 a, b = self.as_coll(v1), self.as_coll(v2)
@@ -874,15 +959,7 @@ class Interp:
 
     def apply(self, fr: Frame, f: V, args: list, node: ast.AST) -> V:
         call = node if isinstance(node, ast.Call) else ast.copy_location(ast.Call(func=ast.Name(id="<fn>", ctx=ast.Load()), args=[], keywords=[]), node)
-        if isinstance(f, Fn):
-            return self.call_fn(fr, f, args, {}, call)
-        if isinstance(f, BoundAPI):
-            return self.call_method(fr, f.recv, f.attr, args, {}, call)
-        if isinstance(f, ClassRef):
-            return self.construct(fr, f.ci, args, {}, call)
-        if isinstance(f, Builtin):
-            return self.call_builtin(fr, f.name, args, {}, call)
-        return Unknown(f"{key(f)}({','.join(key(a) for a in args)})", taint_of(f) | self._taints(args, {}))
+        return self.call_value(fr, f, args, {}, call)
 
     def exec_while(self, fr: Frame, s: ast.While) -> Formula:
         """`while work: x = work.pop() ...` is a loop over the elements of the work list; any other while loop is executed once and
@@ -1015,7 +1092,11 @@ class Interp:
                     v.label = f"{recv.cls.name}.{target.attr}"
                 old = recv.fields.get(target.attr)
                 g = self.rel_guard(fr)
-                recv.fields[target.attr] = v if old is None or g == TRUE else self.join_ite(g, v, old)
+                if g == TRUE:
+                    recv.fields[target.attr] = v
+                else:
+                    g = self.guard()
+                    recv.fields[target.attr] = AltV([(g, v), (f_not(g), old if old is not None else Unknown(f"<{recv.cls.name}.{target.attr} unset>"))]) if not isinstance(old, AltV) else AltV([(g, v), *[(conj([f_not(g), h]), x) for h, x in old.alts]])
             else:
                 self.note(f"{fr.fi.qualname}: attribute store on {key(recv)} not modelled")
         elif isinstance(target, ast.Subscript):
@@ -1029,6 +1110,13 @@ class Interp:
     def as_coll(self, v: V) -> Coll:
         if isinstance(v, Coll):
             return v
+        if isinstance(v, AltV):
+            out = Coll()
+            for g, x in self.live(v):
+                c = self.as_coll(x)
+                out.parts += [replace(p, guard=conj([p.guard, g])) for p in c.parts]
+                out.removals += c.removals
+            return out
         if isinstance(v, NoneV):
             return Coll()
         if isinstance(v, TupleV):
@@ -1155,6 +1243,8 @@ class Interp:
     def truth(self, v: V) -> Formula:
         if isinstance(v, BoolV):
             return v.f
+        if isinstance(v, AltV):
+            return disj(conj([g, self.truth(x)]) for g, x in self.live(v))
         if isinstance(v, Const):
             return TRUE if v.value else FALSE
         if isinstance(v, NoneV):
@@ -1178,6 +1268,8 @@ class Interp:
     def isnone(self, v: V) -> Formula:
         if isinstance(v, NoneV):
             return TRUE
+        if isinstance(v, AltV):
+            return disj(conj([g, self.isnone(x)]) for g, x in self.live(v))
         if isinstance(v, Unknown):
             if v.maybe_none is False:
                 return FALSE
@@ -1418,9 +1510,21 @@ class Interp:
         return self.attr_of(fr, self.ev(fr, e.value), e.attr)
 
     def attr_of(self, fr: Frame, v: V, attr: str) -> V:
+        if isinstance(v, AltV):
+            return self.distribute(v, lambda x: self.attr_of(fr, x, attr))
+        if isinstance(v, SuperRef):
+            ms = self.repo.mro(v.obj.cls if isinstance(v.obj, Obj) else v.after)
+            seen_after = False
+            for c in ms:
+                if seen_after and attr in c.methods:
+                    return Fn(c.methods[attr], v.obj)
+                if c is v.after or c == v.after:
+                    seen_after = True
+            return Unknown(f"super().{attr}")
         if isinstance(v, Obj):
             if attr in v.fields:
-                return v.fields[attr]
+                fv = v.fields[attr]
+                return self.mk_alt(self.live(fv)) if isinstance(fv, AltV) else fv
             m = self.repo.lookup_method(v.cls, attr)
             if m is not None:
                 if m.is_property:
@@ -1560,7 +1664,10 @@ class Interp:
             return BoolV(self.quantified(fr, e.args[0], fn.id == "all"))
         if isinstance(fn, ast.Attribute):
             recv = self.ev(fr, fn.value)
-            f = self.attr_of(fr, recv, fn.attr) if isinstance(recv, (Obj, ClassRef, Builtin)) else BoundAPI(recv, fn.attr)
+            if isinstance(recv, AltV):
+                f = self.mk_alt([(g, self.attr_of(fr, x, fn.attr) if isinstance(x, (Obj, ClassRef, Builtin, SuperRef)) else BoundAPI(x, fn.attr)) for g, x in self.live(recv)])
+            else:
+                f = self.attr_of(fr, recv, fn.attr) if isinstance(recv, (Obj, ClassRef, Builtin, SuperRef)) else BoundAPI(recv, fn.attr)
         else:
             f = self.ev(fr, fn)
         args: list = []
@@ -1575,13 +1682,22 @@ class Interp:
             else:
                 args.append(self.ev(fr, a))
         kwargs = {k.arg: self.ev(fr, k.value) for k in e.keywords if k.arg is not None}
+        return self.call_value(fr, f, args, kwargs, e)
+
+    def call_value(self, fr: Frame, f: V, args: list, kwargs: dict, e: ast.Call) -> V:
+        if isinstance(f, AltV):
+            return self.distribute(f, lambda x: self.call_value(fr, x, args, kwargs, e))
         if isinstance(f, Fn):
             return self.call_fn(fr, f, args, kwargs, e)
         if isinstance(f, ClassRef):
             return self.construct(fr, f.ci, args, kwargs, e)
         if isinstance(f, Builtin):
+            if f.name == "super" and not args and fr.selfv is not None and fr.fi.cls is not None:
+                return SuperRef(fr.selfv, fr.fi.cls)
             return self.call_builtin(fr, f.name, args, kwargs, e)
         if isinstance(f, BoundAPI):
+            if isinstance(f.recv, AltV):
+                return self.distribute(f.recv, lambda x: self.call_method(fr, x, f.attr, args, kwargs, e))
             return self.call_method(fr, f.recv, f.attr, args, kwargs, e)
         t = self._taints(args, kwargs) | taint_of(f)
         return Unknown(f"{key(f)}(..)", t)
@@ -1722,12 +1838,8 @@ class Interp:
         try:
             if isinstance(pred, NoneV):
                 f = self.truth(el)
-            elif isinstance(pred, Fn):
-                f = self.truth(self.call_fn(fr, pred, [el], {}, e))
-            elif isinstance(pred, BoundAPI):
-                f = self.truth(self.call_method(fr, pred.recv, pred.attr, [el], {}, e))
             else:
-                f = self.free(f"T[{key(pred)}({sym})]", taint_of(pred))
+                f = self.truth(self.call_value(fr, pred, [el], {}, e))
             out = Coll()
             out.parts.append(Part("filter", conj([self.guard(), f if keep else f_not(f)]), src=lp.src, sym=sym, fi=fr.fi, node=e))
         finally:
